@@ -70,6 +70,7 @@ type vC08Lab struct {
 	nontriv  bool
 	ghostChk int
 	// delegations removed from the cache since the last tree (eviction / ErrorCount / purge)
+	minLevel       int // qname minimisation level of the resolver under test (0 = off)
 	pendingRemoved []string
 	evicted        map[string]bool
 	grant          map[int]int64 // server id -> end of the longest lease ever granted towards it
@@ -185,12 +186,23 @@ func (l *vC08Lab) tree(name string, t0, t1 int64, refresh, fromCache bool, log [
 		acts = append(acts, fmt.Sprintf("LSeed %s", l.labs.zone(name)))
 	}
 	const h12 = int64(12 * time.Hour)
+	full := strings.ToLower(dns.Fqdn(name))
+	lastAsked := -1
 	for _, e := range log {
-		if e.name != strings.ToLower(dns.Fqdn(name)) || e.qtype != dns.TypeA {
+		minimised := e.name != full
+		if e.qtype != dns.TypeA || (minimised && !(l.minLevel > 0 && dns.IsSubDomain(e.name, full))) {
 			l.inconcl = true // a question the scenario did not expect (retry with another name)
 			continue
 		}
-		asked = append(asked, fmt.Sprintf("%d", e.srv))
+		// with qname minimisation a zone's servers are asked for a shortened name first and for
+		// more labels afterwards: that is one hop of the descent
+		if !(l.minLevel > 0 && e.srv == lastAsked) {
+			asked = append(asked, fmt.Sprintf("%d", e.srv))
+		}
+		lastAsked = e.srv
+		if minimised && e.kind != vC08RespReferral && e.kind != vC08RespJunk {
+			continue // an answer about a shortened name is not the answer: nothing is stored for it
+		}
 		// ghost oracle: nobody may still be talking to a retired server
 		if until, ok := l.retired[e.srv]; ok {
 			l.ghostChk++
@@ -370,7 +382,11 @@ func (l *vC08Lab) scenario(idx int) {
 	if r.Intn(2) == 0 {
 		prefetch = []int{50, 75, 90, 90}[r.Intn(4)]
 	}
-	l.p = vC08NewPipeWith(l.t, w, prefetch, 0, l.counter)
+	l.minLevel = 0
+	if r.Intn(3) == 0 {
+		l.minLevel = []int{1, 2, 5}[r.Intn(3)]
+	}
+	l.p = vC08NewPipeWith(l.t, w, prefetch, l.minLevel, l.counter)
 	defer l.p.close()
 	l.zones = []string{"tld.", "a.tld.", "s.a.tld."}
 	l.keys, l.names, l.trees, l.desc = map[string]int{}, nil, nil, nil
@@ -378,7 +394,7 @@ func (l *vC08Lab) scenario(idx int) {
 	l.goFail, l.over12h, l.inconcl, l.nontriv, l.ghostChk = "", false, false, false, 0
 	l.pendingRemoved, l.evicted, l.grant = nil, map[string]bool{}, map[int]int64{}
 	l.labs = vC08Labels{}
-	l.desc = append(l.desc, fmt.Sprintf("scenario %d: theme=%d deep=%v prefetch=%d tld=%v a=%v", idx, theme, deep, prefetch,
+	l.desc = append(l.desc, fmt.Sprintf("scenario %d: theme=%d deep=%v prefetch=%d qmin=%d tld=%v a=%v", idx, theme, deep, prefetch, l.minLevel,
 		w.srvs[0].deleg["tld."].nsTTL, w.srvs[1].deleg["a.tld."].nsTTL))
 
 	qnames := []string{"w1.a.tld.", "w2.a.tld.", "nx.a.tld."}
@@ -598,6 +614,9 @@ func (l *vC08Lab) scenario(idx int) {
 	}
 	if changed {
 		kind += "-withdrawn"
+	}
+	if l.minLevel > 0 {
+		kind += "-qmin"
 	}
 	if l.over12h {
 		kind += "-over12h"
